@@ -141,6 +141,7 @@ Definition pec_ok (n : nat) (out : list N) : bool :=
 Definition c03_step (o : op) (x : obs) : sv :=
   match o, x with
   | OEncode _ id _ _ _, XEnc (Some n) out => sv_of (pec_ok n out) id
+  | OProcess _ _, XProcess (inl (_, Some n)) out => sv_of (pec_ok n out) 100    (* the response the processor encodes *)
   | _, _ => sv_triv
   end.
 
@@ -230,7 +231,8 @@ Definition c07_step (s : ost) (o : op) (x : obs) : sv :=
         match spec_response id a ls (snd (os_eids s)) with
         | Some (code, cc, fields) =>
             sv_of ((10 <=? n)%nat && (n <=? length out)%nat &&
-                   list_eqb (sub out 9 3) [0; code; cc] &&
+                   (nth 9 out 0 <? 32) &&                         (* Rq 0, D 0, rsvd 0; the instance ID is C12's business *)
+                   list_eqb (sub out 10 2) [code; cc] &&
                    (negb (cc =? 0) || list_eqb (sub out 12 (n - 13)) fields)) id
         | None => sv_of false id
         end
@@ -248,7 +250,9 @@ Definition c08_step (s : ost) (o : op) (x : obs) : sv :=
         match spec_message h id a ls 0, x with
         | Some (mt, body), XEnc (Some n) out =>
             sv_of ((10 <=? n)%nat && (n <=? length out)%nat && list_eqb (sub out 8 (n - 9)) (mt :: body)) id
-        | Some (mt, body), XEnc None out => sv_triv      (* refusing a message that fits is C16's business *)
+        | Some (mt, body), XEnc None out =>
+            (* a body the frame can carry, into a buffer that can hold it, must be encoded, not refused *)
+            if fits_frame body && (10 + length body <=? length buf)%nat then sv_of false id else sv_triv
         | Some (mt, body), _ => sv_triv
         | None, XEnc None out => sv_of (list_eqb out buf) id        (* other formats: refused *)
         | None, _ => sv_of false id
